@@ -59,6 +59,9 @@ func (s *Scripted) Run(resolver graphql.UnitResolver, units ...*graphql.WorkUnit
 	}
 }
 
+// PanicMark precedes the message in the value the harness's resolvers panic with.
+const PanicMark = "harness-panic:"
+
 // ExecDeadline: how long one Parse / PrepareQuery / Execute may take before it is reported as hanging
 // (cases normally take milliseconds).
 var ExecDeadline = 30 * time.Second
@@ -133,12 +136,9 @@ func classify(err error, qname string) Observed {
 		o.Class = "custom"
 		o.Text = c.SanitizedError()
 	case graphql.ClientError:
+		// a client error raised by thunder itself: its wording is not compared
 		o.Class = "client"
-		o.Text = c.Error()
-		if strings.HasPrefix(o.Text, "expected type boolean, found type ") {
-			// the Go type name of the offending value is not part of the model
-			o.Text = `expected type boolean in "if" argument`
-		}
+		o.Text = ""
 	default:
 		var inner graphql.SanitizedError
 		if errors.Is(cause, context.Canceled) || errors.Is(cause, context.DeadlineExceeded) {
@@ -148,11 +148,12 @@ func classify(err error, qname string) Observed {
 			// not a SanitizedError itself, but one is somewhere in its chain
 			o.Class = "wrapsafe"
 			o.Text = ctext
-		} else if strings.HasPrefix(ctext, "graphql: panic: ") {
+		} else if i := strings.Index(ctext, PanicMark); i >= 0 {
+			// recognised by the value the harness's resolver panicked with, not by thunder's wording
 			o.Class = "panic"
-			t := strings.TrimPrefix(ctext, "graphql: panic: ")
-			if i := strings.Index(t, "\n"); i >= 0 {
-				t = t[:i]
+			t := ctext[i+len(PanicMark):]
+			if j := strings.IndexAny(t, " \n\t"); j >= 0 {
+				t = t[:j]
 			}
 			o.Text = t
 		} else {
@@ -537,7 +538,8 @@ func Variant(r *vh.Rng, seed *Case, qo QOpts, pFail int, inject bool) *Case {
 			}
 		default:
 			if inject && c.Query.DirsWellFormed() {
-				InjectFailure(r, RefEval(c.Spec, c.Data, c.Query.Prune()).Reached)
+				rr := RefEval(c.Spec, c.Data, c.Query.Prune())
+				InjectFailure(r, rr.Reached, rr.Enums)
 			} else {
 				c.Data = GenData(r, c.Spec, pFail)
 			}
